@@ -7,6 +7,7 @@ import (
 	"fmt"
 	"os"
 	"path/filepath"
+	"runtime/debug"
 	"sort"
 	"strconv"
 	"strings"
@@ -370,6 +371,9 @@ func (c *Ctx) Finish() int {
 	return code
 }
 
+// PanicHook, when set, receives panics escaping from Parallel bodies (library code under test runs in-process there).
+var PanicHook func(item int, r interface{}, stack string)
+
 // Parallel runs fn(i) for i in [0,n) on w workers.
 func Parallel(n, w int, fn func(i int)) {
 	if w <= 0 {
@@ -382,7 +386,16 @@ func Parallel(n, w int, fn func(i int)) {
 		go func() {
 			defer wg.Done()
 			for i := range ch {
-				fn(i)
+				func() {
+					defer func() {
+						if r := recover(); r != nil && PanicHook != nil {
+							PanicHook(i, r, string(debug.Stack()))
+						} else if r != nil {
+							panic(r)
+						}
+					}()
+					fn(i)
+				}()
 			}
 		}()
 	}
